@@ -1589,9 +1589,13 @@ class ScopeStack:
         pattern_nested = re.compile(OutputReferenceNested)
 
         component_locations_to_check = [scope.location]
+        visited_locations = set()
 
         while component_locations_to_check:
             location = component_locations_to_check.pop()
+            if tuple(location) in visited_locations:
+                continue
+            visited_locations.add(tuple(location))
 
             scope: ScopeStack.Scope = self.scopes[tuple(location)]
             if isinstance(scope.template, Workflow):
@@ -2705,6 +2709,37 @@ def namespace_to_flowir(
             uncaught_errors.append(experiment.model.errors.DSLInvalidFieldError(
                 location=scope_location, underlying_error=e
             ))
+
+    # VV: Steps cannot form direct, or indirect, cycles
+    name_to_uid = {f"stage{stage}.{name}": uid for uid, (stage, name) in uid_to_name.items()}
+    producers_of: typing.Dict[typing.Tuple[str, ...], typing.Set[typing.Tuple[str, ...]]] = {}
+    for uid, comp in components.items():
+        producers_of[uid] = set()
+        for ref in comp.flowir.get("references", []):
+            producer_name = ref.rsplit(":", 1)[0].split("/", 1)[0]
+            if producer_name in name_to_uid:
+                producers_of[uid].add(name_to_uid[producer_name])
+    visit_state: typing.Dict[typing.Tuple[str, ...], int] = {}
+    for root in producers_of:
+        if root in visit_state:
+            continue
+        stack = [(root, iter(sorted(producers_of[root])))]
+        visit_state[root] = 1
+        while stack:
+            uid, remaining = stack[-1]
+            for producer_uid in remaining:
+                if visit_state.get(producer_uid) == 1:
+                    uncaught_errors.append(experiment.model.errors.DSLInvalidFieldError(
+                        location=scopes.scopes[uid].dsl_location(),
+                        underlying_error=ValueError(f"The steps {'/'.join(uid)} and {'/'.join(producer_uid)} are part "
+                                                    f"of a dependency cycle")))
+                elif producer_uid not in visit_state:
+                    visit_state[producer_uid] = 1
+                    stack.append((producer_uid, iter(sorted(producers_of[producer_uid]))))
+                    break
+            else:
+                visit_state[uid] = 2
+                stack.pop()
 
     # VV: At this point we've done everything we could to resolve the DSL 2.0. We should have a mapping of
     # step identifiers to flowir components. So next we map the DSL 2.0 key-outputs to those of FlowIR
